@@ -26,7 +26,7 @@ RULE = (
 )
 ASSUMPTIONS = [
     "oracle: abstract model in this file (from the C11 statement); sha256 computed by hashlib",
-    "contents: one small CSV text and two ~80 KiB texts that differ only in their last line; source files live outside the inputs area",
+    "contents: one small CRLF text (line break inside a quoted cell, no final newline) and two ~80 KiB LF texts that differ only in their last line; stored bytes are compared byte for byte; source files live outside the inputs area",
 ]
 ENUM_EXHAUSTIVE = {
     "quick": "all canonical op sequences of length <= 4",
@@ -35,7 +35,8 @@ ENUM_EXHAUSTIVE = {
 NAMES = ["n1", "n2"]
 SOURCES = ["s1.csv", "s2.csv"]
 _BIG = "id,amount\n" + "".join(f"{i},{i * 7 % 1000}\n" for i in range(9000))   # ~80 KiB
-CONTENTS = {"c1": "a,b\n1,2\n", "c2": _BIG + "last,1\n", "c3": _BIG + "last,2\n"}
+# c1: a small CRLF export with a line break inside a quoted cell and no final newline; c2/c3: LF, ~80 KiB
+CONTENTS = {"c1": 'a,b\r\n1,"x\r\ny"\r\n2,3', "c2": _BIG + "last,1\n", "c3": _BIG + "last,2\n"}
 WALL_BUDGET_S = {"quick": 150, "thorough": 1500}
 
 
